@@ -73,6 +73,7 @@ TABLE = {
     "mutants/reverts/revert_5c2ad9f.patch": ["C11", "C12"],
     "mutants/reverts/revert_963b41b.patch": ["C16"],
     "mutants/reverts/revert_8a24bd9.patch": ["C08"],
+    "mutants/reverts/revert_8294ea6.patch": ["C04", "C12"],
     "mutants/socks_udp_relay_not_rearmed_after_mapped_name.patch": ["C17"],  # revert of 1e41e7e alone does not compile (1368b87 builds on it)
     "mutants/reverts/revert_1368b87.patch": ["C17"],
     "mutants/tcp_inflight_not_released_on_drop.patch": ["C06"],
